@@ -79,8 +79,10 @@ def identity_on(fi, param, typenames):
     return bool(r) and all(norm(e) == param for _r, e in r)
 
 
-def returns_by_kind(fi, param, kinds):
-    """{kind: [(return node, resolved expression)]}   kinds: {kind name: tuple of class names the operand is an instance of}"""
+def returns_by_kind(fi, param, kinds, rebind=False):
+    """{kind: [(return node, resolved expression)]}   kinds: {kind name: tuple of class names the operand is an instance of}
+    rebind: a re-binding of the operand itself (val = scale(val)) is substituted like any other local (the isinstance tests
+    are then only meaningful ahead of it - fine for converters that test first and convert inside the arm)"""
     out = {k: [] for k in kinds}
     rets = [n for n in ast.walk(fi.node) if isinstance(n, ast.Return) and n.value is not None and not any(
         isinstance(p, (ast.FunctionDef, ast.Lambda)) and p is not fi.node for p in parents(n))]
@@ -98,7 +100,7 @@ def returns_by_kind(fi, param, kinds):
                             break
                     else:
                         val = _FoldIfExp(param, typenames).visit(_Subst(env).visit(clone(st[2])))
-                        if st[1] == param:
+                        if st[1] == param and not rebind:
                             continue          # re-binding of the operand itself (other = ConstVal(other)): keep the name
                         env[st[1]] = val
                 if not feasible:
